@@ -16,6 +16,9 @@ fn element_exprs() -> gen::VS {
         2 => Just(json!({"var": "a"})),
         1 => Just(json!({"var": "outer"})),            // must be invisible inside map / filter / reduce
         1 => Just(json!({"var": ["outer", "no-outer"]})),
+        // the ways other implementations let an expression reach out of the element scope, or at the position: all of
+        // them are plain absent paths here
+        1 => select(vec!["../outer", "../../outer", "$root.outer", "$.outer", "$parent.outer", "@root.outer", "data.outer", "context.outer", "index", "$index", "@index", "key", "$key", "this", "$this", "item", "it"]).prop_map(|p| json!({"var": [p, "no-such-scope"]})),
         1 => Just(json!({"missing": ["a", "outer"]})),
         1 => Just(json!({"missing_some": [1, ["outer", "b"]]})),
         1 => Just(json!({"*": [{"var": ""}, 2]})),
@@ -61,6 +64,7 @@ fn reduce_exprs() -> gen::VS {
         1 => Just(json!({"var": "accumulator"})),
         1 => Just(json!({"merge": [{"var": "accumulator"}, [{"var": "current"}]]})),
         1 => Just(json!({"var": "outer"})),
+        1 => select(vec!["../outer", "$root.outer", "$.outer", "index", "$index", "acc", "cur", "value", "result", "initial", "previous", "total", "a", "b", "accumulator.outer", "current.outer"]).prop_map(|p| json!({"var": [p, "no-such-name"]})),
         1 => Just(json!({"missing": ["current", "accumulator", "outer"]})),
         1 => Just(json!({"cat": [{"var": "current"}, {"var": "accumulator"}]})),
         1 => Just(json!({"-": [{"var": "accumulator"}, {"var": "current"}]})),
